@@ -19,6 +19,13 @@ def obligations(tier):
                           bounds=f"symbolic ASCII digit string of <={maxd} digits through the real int(); failed match raises RegexNotMatchError only"))
     obs.append(Ob("C07.dispatch_history", "CH", "harness.h_track", "dispatcher_history", 600, funcs=("chartparse.track.parse_data_from_chart_lines",),
                   bounds="a line is decoded by the kinds of THIS section whatever an earlier section decided about the same text"))
+    obs.append(Ob("C07.dispatcher", "CH", "harness.h_track", "dispatcher", 300, {"VF_NL": 3}, funcs=("chartparse.track.parse_data_from_chart_lines",),
+                  bounds="3 lines x 3 kinds, arbitrary acceptance pattern, lines handed over as a list or a one-shot iterator: every accepted line "
+                         "becomes exactly one datum of the first accepting kind whatever unrecognised lines precede it"))
+    obs.append(Ob("C07.skip_real.1slot", "CH", "harness.h_lines", "skip_real", 900, {"VF_NSLOTS": 1},
+                  funcs=(IN + "InstrumentTrack.from_chart_lines", "chartparse.track.parse_data_from_chart_lines"),
+                  bounds="real recognisers: one of 11 lines of another shape (S 64, N 8, E two words, foreign, garbage) inserted at any of 5 positions of a "
+                         "canonical section: no event of these kinds from it, every canonical line still decoded"))
     obs.append(Ob("C07.dispatch_wiring", "CH", "harness.h_track", "track_dispatch_wiring", 300, {"VF_TRACK": 0},
                   funcs=(IN + "InstrumentTrack._parse_data_from_chart_lines",)))
     return obs
